@@ -139,8 +139,10 @@ def defects(data, layout):
     for i, s in enumerate(layout):
         h = _hdr(data, s)
         if s['id'] == 'diffx':
-            yield 'version_unsupported', i, _swap(
-                data, s, _set_opt(h, b'version', b'2.0'))
+            for v in (b'2.0', b'1.00', b'01.0', b'1.000', b'1', b'1.0.0',
+                      b'1.1', b'10', b'0', b'v1.0', b'1.0-'):
+                yield 'version_unsupported', i, _swap(
+                    data, s, _set_opt(h, b'version', v))
             yield 'version_missing', i, _swap(
                 data, s, _set_opt(h, b'version', None))
             continue
@@ -154,11 +156,14 @@ def defects(data, layout):
         if len(raw) > len(nl):
             bad = raw[:-len(nl)] + b'x' * len(nl)
             yield 'content_not_ending_in_newline', i, _swap(data, s, h, bad)
-        yield 'line_endings_unknown', i, _swap(
-            data, s, _set_opt(h, b'line_endings', b'mac'))
+        for v in (b'mac', b'DOS', b'Unix', b'unix2', b'1', b'crlf'):
+            yield 'line_endings_unknown', i, _swap(
+                data, s, _set_opt(h, b'line_endings', v))
         if s['kind'] == 'meta':
-            yield 'format_not_json', i, _swap(
-                data, s, _set_opt(h, b'format', b'yaml'))
+            for v in (b'yaml', b'0', b'00', b'-0', b'1', b'JSON', b'Json',
+                      b'json2', b'xml', b'js'):
+                yield 'format_not_json', i, _swap(
+                    data, s, _set_opt(h, b'format', v))
             codec = s.get('codec') or 'ascii'
             sig = ''.encode(codec)
             for txt in ('{"k": }', '{"k": 1,}', "{'k': 1}", '{"k" 1}',
@@ -205,7 +210,7 @@ def run(ctx):
     obs = ctx.obs
     rng = ctx.rng
     n = ctx.share(ctx.pick(10000, 300000))
-    defect_every = ctx.pick(8, 6)
+    defect_every = ctx.pick(20, 8)
     for k in range(n):
         doc, st, data, layout, tag = gen_foreign(rng)
         case = {'file': data}
